@@ -59,7 +59,7 @@ class Fn(Item):
 
     def __init__(self, file, path, name=None, requires=(), ensures=(), decreases=None, ret='r',
                  loops=None, proof_start=None, proof_tail=None, attrs=(), rewrites=(), sig_rewrites=(),
-                 props=None, wrap=None, vis='pub', features=None, no_unwind=False, returns=None, hints=()):
+                 props=None, wrap=None, vis='pub', features=None, no_unwind=False, returns=None, hints=(), annotated_closures=True):
         super().__init__(file, path, name, rewrites, props, wrap, features)
         self.requires = _clauses(requires)
         self.ensures = _clauses(ensures)
@@ -73,6 +73,7 @@ class Fn(Item):
         self.vis = vis
         self.no_unwind = no_unwind
         self.returns = returns
+        self.annotated_closures = annotated_closures
         self.hints = list(hints)   # [(regex anchored on body text, proof text)]: inserted right after the unique match
 
 
@@ -148,12 +149,28 @@ class FnRw:
         return self.func(text)
 
 
+def cmp_rw(lhs, rhs, fn_prefix, lhs_out=None, rhs_out=None):
+    """Rule R11 for comparisons on opaque types: `LHS == RHS` -> `{fn_prefix}_eq(LHS, RHS)`, `!=` -> `_ne`; lhs/rhs are regexes
+    (each must be a single group-free pattern); any number of occurrences."""
+    def f(text):
+        n = 0
+        def rep(m):
+            nonlocal n
+            n += 1
+            a = m.group('a') if lhs_out is None else lhs_out
+            b = m.group('b') if rhs_out is None else rhs_out
+            return f"{fn_prefix}_{'eq' if m.group('op') == '==' else 'ne'}({a}, {b})"
+        text = re.sub(r'(?P<a>' + lhs + r')\s*(?P<op>==|!=)\s*(?P<b>' + rhs + r')', rep, text)
+        return text, n
+    return FnRw(f'map `{lhs} ==/!= {rhs}` to {fn_prefix}_eq/_ne (operator carried over one-to-one)', f, None)
+
+
 class ClosureRw:
     """Rules R1-R3: rewrite a closure head `|PARAMS|` whose parameter text matches
     `params` (regex) into `|NEWPARAMS| -> (r: RET) [requires ..] ensures ENS { [let PAT = _vxp;] BODY }`.
     The body text is carried over unchanged."""
 
-    def __init__(self, params, new_params, ret=None, ensures=None, requires=None, destructure=None, count=1, rname='r'):
+    def __init__(self, params, new_params, ret=None, ensures=None, requires=None, destructure=None, count=None, rname='r'):
         self.params, self.new_params, self.ret, self.ensures, self.requires = params, new_params, ret, ensures, requires
         self.destructure, self.count, self.rname = destructure, count, rname
 
@@ -433,8 +450,43 @@ def _tail_split(body):
     return body[:start], body[start:]
 
 
+def unannotated_closures(text):
+    """Closure heads `|params|` / `||` in expression-start position that are not followed by `->` (i.e. carry no
+    Verus annotation).  Used to make tolerant closure rewrites safe: an unannotated closure is a lost anchor."""
+    toks = code_tokens(lex(text))
+    START = {'(', ',', '=', '{', ';', '=>', 'return', 'move', '[', ':'}
+    out = []
+    i = 0
+    while i < len(toks):
+        t = toks[i]
+        prev = toks[i - 1].text if i > 0 else '('
+        if t.kind == 'punct' and t.text in ('|', '||') and prev in START:
+            if t.text == '||':
+                j = i + 1
+            else:
+                j = i + 1
+                depth = 0
+                while j < len(toks) and not (toks[j].text == '|' and depth == 0):
+                    if toks[j].text in ('(', '[', '<'):
+                        depth += 1
+                    elif toks[j].text in (')', ']', '>'):
+                        depth -= 1
+                    j += 1
+                j += 1
+            if j < len(toks) and toks[j].text != '->':
+                out.append(text[t.start:toks[min(j + 3, len(toks) - 1)].end])
+            i = j
+            continue
+        i += 1
+    return out
+
+
 def build_fn(item, text, chunks, tagbase):
     where = f'{item.file}:{item.path}'
+    if getattr(item, 'annotated_closures', True):
+        ua = unannotated_closures(text)
+        if ua:
+            raise LostAnchor(f'{where}: closure without annotation after rewrites: {ua[0]!r}')
     prefix, sig, body = _split_fn(text, where)
     sig, _ = apply_rewrites(sig, item.sig_rewrites, where + ' (signature)')
     if item.ret:
